@@ -697,6 +697,8 @@ struct Snap {
     plain: usize,
     total: usize,
     idle: usize,
+    /// the single RX buffer is locked or holds a packet
+    rx_busy: bool,
     marker: &'static str,
     rdv: (u8, u8),
     detail: String,
@@ -728,6 +730,11 @@ fn snapshot(matter: &Matter<'_>) -> Snap {
         est: t.iter().filter(|r| r.mode != 'N' && !r.reserved).count(),
         plain: t.iter().filter(|r| r.mode == 'N' && !r.reserved).count(),
         total: t.len(),
+        rx_busy: {
+            let crypto = test_only_crypto();
+            let (locked, full, _) = matter.transport_runner(&crypto).verif_rx_state();
+            locked || full
+        },
         idle: t.iter().filter(|r| !r.reserved && r.slots.is_empty()).count(),
         marker,
         rdv: matter.transport().verif_rendezvous_state(),
@@ -837,6 +844,8 @@ fn run_e(f: &[&str]) -> String {
     // datagrams of source `src` with index >= cut[src] are lost
     // (`a<k>`: ... except its stand-alone acknowledgements: the initiator acknowledges, then is silent)
     let cut: Rc<RefCell<BTreeMap<u16, (usize, bool)>>> = Rc::new(RefCell::new(BTreeMap::new()));
+    let further: Rc<RefCell<BTreeMap<u16, usize>>> = Rc::new(RefCell::new(BTreeMap::new()));
+    let due: Rc<RefCell<Vec<u16>>> = Rc::new(RefCell::new(Vec::new()));
     for (i, b) in beh.iter().enumerate() {
         if let Some(k) = b.strip_prefix('s') {
             cut.borrow_mut().insert(i as u16 + 1, (k.parse().unwrap(), false));
@@ -844,17 +853,27 @@ fn run_e(f: &[&str]) -> String {
         if let Some(k) = b.strip_prefix('a') {
             cut.borrow_mut().insert(i as u16 + 1, (k.parse().unwrap(), true));
         }
+        if let Some(k) = b.strip_prefix('m') {
+            // `m<k>`: silent after its k-th datagram like `s<k>`, but when the device's k-th answer goes
+            // out, a FURTHER message on the same exchange is delivered instead of the acknowledgement:
+            // no A flag (the answer stays unacknowledged) and no R flag (nothing is owed for it)
+            let k: usize = k.parse().unwrap();
+            cut.borrow_mut().insert(i as u16 + 1, (k, false));
+            further.borrow_mut().insert(i as u16 + 1, k);
+        }
     }
     let cut2 = cut.clone();
-    let net = Net::new(move |src, _dst, idx, b| match cut2.borrow().get(&src) {
-        Some((k, acks)) if idx >= *k => {
-            if *acks && is_standalone_ack(b) {
-                Action::Deliver
-            } else {
-                Action::Drop
+    let further2 = further.clone();
+    let due2 = due.clone();
+    let net = Net::new(move |src, dst, idx, b| {
+        if src == DEV {
+            if let Some(k) = further2.borrow().get(&dst) {
+                if idx + 1 == *k {
+                    due2.borrow_mut().push(dst);
+                }
             }
         }
-        _ => Action::Deliver,
+        script_cut(&cut2, src, idx, b)
     });
     let fill = field(f, "fill");
     let (n_busy, n_idle): (usize, usize) = match fill.split_once('.') {
@@ -947,6 +966,30 @@ fn run_e(f: &[&str]) -> String {
             let (tx, rx) = net.attach(*no);
             runners.push(Box::pin(mt.run(&crypto, tx, rx, NoNetwork)));
         }
+        {
+            // delivers the further messages of the `m<k>` initiators as soon as they are due
+            let net = net.clone();
+            let due = due.clone();
+            runners.push(Box::pin(core::future::poll_fn(move |_cx| {
+                let todo: Vec<u16> = due.borrow_mut().drain(..).collect();
+                for src in todo {
+                    let first = net.tap().into_iter().find(|t| t.src == src && t.dst == DEV && t.idx == 0);
+                    if let Some(t0) = first {
+                        let mut b = t0.bytes.clone();
+                        if b.len() > 8 {
+                            let c = u32::from_le_bytes([b[4], b[5], b[6], b[7]]).wrapping_add(7000);
+                            b[4..8].copy_from_slice(&c.to_le_bytes());
+                        }
+                        if let Some(off) = proto_offset(&b) {
+                            b[off] &= !0x06; // neither A nor R
+                            b[off + 1] = 0x22; // PASEPake1, whatever the handshake
+                        }
+                        net.inject(src, DEV, &b);
+                    }
+                }
+                Poll::<Result<(), Error>>::Pending
+            })));
+        }
         let background = first_of(runners);
 
         let flow = async {
@@ -1021,7 +1064,7 @@ fn run_e(f: &[&str]) -> String {
                 Timer::after(Duration::from_millis(50)).await;
                 waited += 50;
                 let s = snapshot(&dev);
-                if s.reserved == 0 && s.live == n_held && s.dropped == 0 {
+                if s.reserved == 0 && s.live == n_held && s.dropped == 0 && !s.rx_busy {
                     quiet += 1;
                     if quiet >= 4 {
                         break;
@@ -1047,11 +1090,12 @@ fn run_e(f: &[&str]) -> String {
             let mut s = String::new();
             write!(
                 s,
-                "q={} res={} xl={} xd={} marker={} rdv={}{} recl={} probe={} | w={} cx={} est={} plain={} total={} tries={} after:res={} est={} results=",
+                "q={} res={} xl={} xd={} rx={} marker={} rdv={}{} recl={} probe={} | w={} cx={} est={} plain={} total={} tries={} after:res={} est={} results=",
                 (quiet >= 4) as u8,
                 snap.reserved,
                 snap.live - n_held.min(snap.live),
                 snap.dropped,
+                snap.rx_busy as u8,
                 snap.marker,
                 snap.rdv.0,
                 snap.rdv.1,
@@ -1088,6 +1132,19 @@ fn run_e(f: &[&str]) -> String {
     });
     drop(held);
     line
+}
+
+fn script_cut(cut: &Rc<RefCell<BTreeMap<u16, (usize, bool)>>>, src: u16, idx: usize, b: &[u8]) -> Action {
+    match cut.borrow().get(&src) {
+        Some((k, acks)) if idx >= *k => {
+            if *acks && is_standalone_ack(b) {
+                Action::Deliver
+            } else {
+                Action::Drop
+            }
+        }
+        _ => Action::Deliver,
+    }
 }
 
 /// offset of the protocol header of an unsecured datagram (session id 0)
@@ -1407,6 +1464,12 @@ fn generate(tier: &str, seed: u64) -> Vec<String> {
             e2e_cases.push((n, format!("k={} beh=s1 conc=0 g=0 j=0 age=0 u={} noresp=1 ut=1", k, if n == 3 { 3 } else { 6 })));
         }
         e2e_cases.push((n, "k=P beh=s1 conc=0 g=0 j=0 age=0 u=2".into()));
+        // the answer is never acknowledged, a further (unreliable) message arrives instead and waits in the
+        // RX buffer; the handler gives up (TxTimeout) and its exchange closes cleanly: the message is an orphan
+        e2e_cases.push((n, "k=P beh=m1 conc=0 g=0 j=0 age=0".into()));
+        e2e_cases.push((n, "k=C beh=m1 conc=0 g=0 j=0 age=0".into()));
+        e2e_cases.push((n, "k=P beh=m2.f conc=0 g=0 j=0 age=0".into()));
+        e2e_cases.push((n, "k=C beh=m1 conc=0 g=0 j=0 age=0 cx=3".into()));
         // the initiator acknowledges the answer and then falls silent: the handler's receive time-out (30 s + ladders)
         if n == 16 || thorough {
             e2e_cases.push((n, "k=P beh=a1 conc=0 g=0 j=0 age=0 qw=45000".into()));
